@@ -218,6 +218,31 @@ def _explore(out, tier, seed, facts, replay):
         # the property itself: a:s:b = a, a+s, ... including b when hit
         for dg in disagreements[:5]:
             out.violation("vector-syntax", "parse_numbers(%r) = %r, documented syntax gives %r" % (dg["case"]["string"], dg["implementation"], dg["model"]), dg["case"])
+    # date ranges with a NEGATIVE step count down from the LATER date in steps of |step| calendar days while the date is not before
+    # the earlier one (documented in the code; outside the Coq model): independent calendar arithmetic
+    import datetime
+    def _d(n_):
+        return datetime.date(n_ // 10000, n_ // 100 % 100, n_ % 100)
+    for _ in range(30 if tier == "quick" else 300):
+        d0_ = _d(rng.choice([20120225, 20120101, 20111228, 20000227, 20121229])) + datetime.timedelta(days=rng.randint(0, 5))
+        d1_ = d0_ + datetime.timedelta(days=rng.randint(0, 12))
+        st_ = -rng.choice([1, 2, 3, 4, 7])
+        a_, b_ = (d1_, d0_) if rng.random() < 0.7 else (d0_, d1_)
+        sstr = "%s:%d:%s" % (a_.strftime("%Y%m%d"), st_, b_.strftime("%Y%m%d"))
+        want_, cur_ = [], d1_
+        while cur_ >= d0_:
+            want_.append(int(cur_.strftime("%Y%m%d")))
+            cur_ += datetime.timedelta(days=st_)
+        try:
+            signal.alarm(10)
+            got_ = [int(x_) for x_ in verif.util.parse_numbers(sstr, True)]
+        except (datagen.ImplExit, _Hang, Exception) as e_:
+            got_ = "%s" % type(e_).__name__
+        finally:
+            signal.alarm(0)
+        if got_ != want_:
+            out.violation("date-range-negative-step", "parse_numbers(%r, is_date=True) = %r; counting down from the later date in steps of %d days gives %r" % (sstr, got_, -st_, want_), {"string": sstr})
+            break
     # ---- Tie B.2 + falsifier: command lines over generated text files --------------------------------
     tmp = tempfile.mkdtemp(prefix="vfc13_")
     nf = 0
@@ -432,6 +457,32 @@ def _explore(out, tier, seed, facts, replay):
             if got is None or len(got) != 2 or any(abs(g_ - w_) > 1e-5 * max(1, abs(w_)) for g_, w_ in zip(got, want)):
                 out.violation("obs-fcst-fields:%s" % ("both" if ofld and ffld else "one"), "verif %s gives %r (%s %s); the mean absolute difference of the columns %r and %r per lead time is %r"
                               % (" ".join(argv[2:-2]), got, r[0], r[1][:120] if r[0] != "ok" else "", ofld or "obs", ffld or "fcst", want), {"argv": argv, "file": open(ff_).read()})
+        # ---- without -r, a metric that needs thresholds gets 20 of them, evenly spaced from the smallest to the largest value found among
+        #      the observations and among the forecasts (each on its own: an unpaired extreme value still counts)
+        fdt = os.path.join(tmp, "defthr.txt")
+        with open(fdt, "w") as f_:
+            f_.write("unixtime leadtime location obs fcst\n")
+            vals_dt = [(rng.randint(0, 20) / 2.0, rng.randint(0, 20) / 2.0) for _ in range(6)]
+            for n_, (o_, c_) in enumerate(vals_dt):
+                f_.write("%d 0 1 %g %g\n" % (86400 * n_, o_, c_))
+            f_.write("%d 0 1 -999 30\n%d 0 1 -7 -999\n" % (86400 * 6, 86400 * 7))        # the extremes are unpaired
+        for mname in ("ets", "hit"):
+            fo = os.path.join(tmp, "defthr_out.csv")
+            if os.path.exists(fo):
+                os.remove(fo)
+            argv = ["verif", fdt, "-m", mname, "-x", "threshold", "-type", "csv", "-f", fo]
+            r = run_cli(argv)
+            nf += 1
+            got_t = None
+            if r[0] == "ok" and os.path.exists(fo):
+                try:
+                    got_t = [float(ln.split(",")[0]) for ln in open(fo).read().strip().split("\n")[1:]]
+                except ValueError:
+                    got_t = None
+            want_t = [float(x_) for x_ in np.linspace(-7.0, 30.0, 20)]
+            if got_t is None or len(got_t) != 20 or any(abs(a_ - b_) > 1e-4 * max(1.0, abs(b_)) for a_, b_ in zip(got_t, want_t)):
+                out.violation("default-thresholds", "verif defthr.txt -m %s -x threshold (no -r): the rows are the thresholds %r; 20 values from the smallest (-7, an observation without forecast) to the largest (30, a forecast without observation) are %r"
+                              % (mname, got_t, [round(x_, 4) for x_ in want_t]), {"argv": argv, "file": open(fdt).read()})
         # ---- -x decides the rows, -Tx only the dimension of the pre-aggregation window; neither takes the other's role
         for xopt, txopt, cfg_tx in (("leadtime", "time", False), ("time", "leadtime", False), (None, "time", False), ("leadtime", "time", True), ("location", "time", False)):
             fo = os.path.join(tmp, "x_out.csv")
